@@ -593,7 +593,18 @@ func (r *replayer) stubOverlay(ov map[string]string) error {
 			}
 			if !dup {
 				// keep the original body (its imports stay used); the stub call comes first
-				byFile[lo.Filename] = append(byFile[lo.Filename], edit{lo.Offset, lo.Offset + 1, "{ if zzvfstub.Native() { return zzvfstub." + st[1] + "() }; "})
+				target := strings.TrimSuffix(st[1], "+")
+				callArgs := ""
+				if strings.HasSuffix(st[1], "+") && fd.Type.Params != nil {
+					var names []string
+					for _, f := range fd.Type.Params.List {
+						for _, n := range f.Names {
+							names = append(names, n.Name)
+						}
+					}
+					callArgs = strings.Join(names, ", ")
+				}
+				byFile[lo.Filename] = append(byFile[lo.Filename], edit{lo.Offset, lo.Offset + 1, "{ if zzvfstub.Native() { return zzvfstub." + target + "(" + callArgs + ") }; "})
 			}
 		}
 	}
